@@ -492,7 +492,8 @@ func c20Case(c *Ctx) *Result {
 			params["server_patch_via"] = via
 			res.Obs["patches_via_"+via]++
 			if err := apply(pf); err != nil {
-				if strings.HasPrefix(err.Error(), "harness:") {
+				if strings.HasPrefix(err.Error(), "harness:") || strings.Contains(err.Error(), "DeadlineExceeded") || strings.Contains(err.Error(), "deadline exceeded") || strings.Contains(err.Error(), "Unavailable") {
+					// the harness's own socket, or the 10 s RPC time-out on a loaded machine: no verdict
 					res.Verdict, res.Detail = Inconclusive, err.Error()
 					return res
 				}
